@@ -10,6 +10,13 @@ modules and in every loaded cascade module.  A draw of the scripted source is ei
 id-like string (round 1-4 streams) or a real uuid.UUID value (round 5): the job id is then whatever
 the implementation makes of it, later events name the job by reference ("@<tag of the submit>").
 
+Round 6: the controller side of the channel runs too.  `rsend` events call the REAL cascade.controller.report.Reporter
+(send_progress / send_result / shutdown; one Reporter per job, made from the address the router handed to the spawn) over a fake
+PUSH socket below the code (zmq.Context.socket and comms.get_context wherever bound) and a scripted clock (every clock function of
+`time`, wrapped wherever it is bound; each controller "process" has its own epoch); what it puts on the wire is delivered to the
+job's PULL socket by `rdeliver` events (in order, lagging, reordered, duplicated, after the shutdown notice) and read by the real
+handle_controller.  The oracle for these histories orders the reports by the harness's own clock at the time of the send.
+
 * oracle: a direct reading of the property on the observed responses (independent of the model);
 * correspondence: the same histories are evaluated by the Coq model (Gateway/Router.v) and the
   outputs compared inside Coq (Gateway/RouterCheck.check_case)."""
@@ -23,6 +30,8 @@ import os
 import random
 import re
 import sys
+import threading
+import time
 import types
 import uuid as uuidmod
 
@@ -30,7 +39,8 @@ from common import cN, cZ, cbool, clist, copt, cstr, coq_results
 
 TRUSTED = [
     "harness/c18.py fakes: scripted PULL/REP sockets, scripted id source (uuid.uuid1/uuid4/os.urandom wrapped wherever bound), "
-    "patched _spawn_subprocess/get_context/getfqdn; "
+    "patched _spawn_subprocess/get_context/getfqdn; fake PUSH socket + scripted clock (time.* wrapped wherever bound) under the real Reporter, "
+    "report address rebuilt as '<addr>,<job id>' like router._spawn_local does; "
     "the dispatch of server.serve (read a socket only while it is registered in the zmq.Poller) is re-enacted by the driver",
     "string -> number maps for job ids / task names / output names (injective per history); base64 + JSON + pickle transport is in the "
     "loop on the implementation side and not modelled",
@@ -44,6 +54,8 @@ ASSUMPTIONS = [
     "round 5 streams: the job id is a function of ONE draw of the id source (the rendering str(u) / u.hex / a prefix ... is observed on a fresh "
     "router per uuid value and handed to the model as a table); a history on which the implementation contradicts that table, or does not draw "
     "from the scripted source at all, is checked by the oracle only (counted as not-compared)",
+    "reporter streams: 'newest' is decided by the harness clock at the call of the Reporter method (two sends at the same instant tie: either may "
+    "be shown); a Reporter is used by one controller process for one job",
     "requests are well-formed API objects (parse_request failures on malformed JSON are not modelled)",
     "after a ShutdownRequest the model keeps processing events (serve finishes the current poll batch); histories are prefixes of that",
 ]
@@ -126,6 +138,70 @@ def _bindings():
     return out
 
 
+_CLOCK_NAMES = ("monotonic_ns", "monotonic", "time_ns", "time", "perf_counter_ns", "perf_counter")
+_REAL_CLOCKS = {n: getattr(time, n) for n in _CLOCK_NAMES}
+_CBIND = {"n": -1, "list": []}
+_CTX_REAL = {}
+
+
+def _clock_bindings():
+    """(namespace dict, attribute, clock name) of every name bound to a clock function of `time`: the time module itself and every loaded
+    module of the implementation; also (dict, attr, 'get_context') for cascade.executor.comms.get_context"""
+    if _CBIND["n"] == len(sys.modules) or _BINDINGS["depth"] > 0:
+        return _CBIND["list"]
+    out = []
+    try:
+        import cascade.executor.comms as comms
+        _CTX_REAL.setdefault("fn", comms.get_context)
+    except Exception:
+        pass
+    for name, mod in list(sys.modules.items()):
+        if mod is None or not (name == "time" or name.split(".")[0] in ("cascade", "earthkit")):
+            continue
+        d = getattr(mod, "__dict__", None)
+        if not isinstance(d, dict):
+            continue
+        for attr, val in list(d.items()):
+            for kind, real in _REAL_CLOCKS.items():
+                if val is real:
+                    out.append((d, attr, kind))
+            if _CTX_REAL.get("fn") is not None and val is _CTX_REAL["fn"] and name != "cascade.gateway.router":
+                out.append((d, attr, "get_context"))
+    _CBIND["n"], _CBIND["list"] = len(sys.modules), out
+    return out
+
+
+# epochs of the controller processes' clocks (ns): unrelated to each other and to the order in which the jobs were made
+MONO_EPOCHS = [5 * 10**13, 10**12, 9 * 10**13, 3 * 10**9, 2 * 10**13, 7 * 10**10]
+WALL0 = 1_790_000_000 * 10**9
+PERF_SHIFT = 123_456_789
+
+
+class PushSock:
+    """the controller's end of the report channel: what is sent is in flight until an `rdeliver` event hands it to the gateway"""
+
+    def __init__(self, gw):
+        self.gw = gw
+        self.port = None
+
+    def connect(self, addr, *a, **k):
+        try:
+            self.port = int(str(addr).rsplit(":", 1)[1])
+        except Exception:
+            self.port = None
+
+    def send(self, b, *a, **k):
+        self.gw.wire.setdefault(self.port, []).append(bytes(b))
+
+    def close(self, *a, **k):
+        pass
+
+    def set(self, *a, **k):
+        pass
+
+    setsockopt = set
+
+
 def is_uuid_hex(c):
     return isinstance(c, str) and len(c) == 32 and all(x in "0123456789abcdef" for x in c)
 
@@ -157,8 +233,35 @@ class Gateway:
         self.last_alloc = None
         self.fe_exc = None
         self.fe_stop = None
+        # controller side (round 6)
+        self.addr_of_job = {}     # job id -> report address the router handed to the spawn
+        self.wire = {}            # port -> [raw message]: everything the job's Reporter has put on the wire
+        self.sent_meta = {}       # job id -> [(clock instant, seq, kind, payload)] per wire message of that job
+        self.reporters = {}       # job id -> (Reporter, epoch index)
+        self.clock_t = 0
+        self.clock_on = None      # epoch index while a Reporter method runs
+        self.clock_reads = []     # what the clock functions returned during the current Reporter call (ns; None = a float)
+        self.thread = threading.get_ident()
+        self.seq = 0
 
     # ---- seams
+    def _any_socket(self, kind=None, *a, **k):
+        if kind == self.zmq.PUSH:
+            return PushSock(self)
+        return self._ctx_socket(kind)
+
+    def _clock_fn(self, name):
+        real = _REAL_CLOCKS[name]
+
+        def clock(*a, **k):
+            if self.clock_on is None or threading.get_ident() != self.thread:
+                return real(*a, **k)
+            mono = MONO_EPOCHS[self.clock_on % len(MONO_EPOCHS)] + self.clock_t
+            ns = {"monotonic": mono, "time": WALL0 + self.clock_t, "perf_counter": mono + PERF_SHIFT}[name.replace("_ns", "")]
+            self.clock_reads.append(ns if name.endswith("_ns") else None)     # None: a float reading
+            return ns if name.endswith("_ns") else ns / 1e9
+        clock.__name__ = name
+        return clock
     def _ctx_socket(self, kind):
         self.next_port += 1
         s = FakeSock(self.next_port)
@@ -168,6 +271,7 @@ class Gateway:
     def _spawn(self, job_spec, addr, job_id):
         port = int(str(addr).rsplit(":", 1)[1])
         self.sock_of_job.setdefault(job_id, self.sock_by_addr.get(port))
+        self.addr_of_job.setdefault(job_id, f"{addr},{job_id}")
         self.last_alloc = job_id
         if not self.spawn_ok:
             raise OSError("spawn failed (scripted)")
@@ -231,12 +335,17 @@ class Gateway:
         class L:
             context = types.SimpleNamespace(socket=lambda kind: ReqSock())
 
-        router.get_context = lambda: types.SimpleNamespace(socket=self._ctx_socket)
+        router.get_context = lambda: types.SimpleNamespace(socket=self._any_socket)
         router.getfqdn = lambda *a: "gateway.test"
         router._spawn_subprocess = self._spawn
         fns = {kind: self._uuid_fn(kind) for kind in _REAL_UUID_FNS}
         fns["urandom"] = self._urandom
-        todo = list(_bindings())
+        for name in _CLOCK_NAMES:
+            fns[name] = self._clock_fn(name)
+        fns["get_context"] = lambda: types.SimpleNamespace(socket=self._any_socket)
+        real_ctx_socket = self.zmq.Context.socket
+        self.zmq.Context.socket = lambda ctx, kind=None, *a, **k: self._any_socket(kind)
+        todo = list(_bindings()) + list(_clock_bindings())
         bound = [(d, attr, d[attr]) for d, attr, kind in todo]
         _BINDINGS["depth"] += 1
         for d, attr, kind in todo:
@@ -248,6 +357,7 @@ class Gateway:
             yield self
         finally:
             logging.disable(prev_disable)
+            self.zmq.Context.socket = real_ctx_socket
             router.get_context, router.getfqdn, router._spawn_subprocess, client.threading = saved
             for d, attr, val in reversed(bound):
                 d[attr] = val
@@ -275,6 +385,26 @@ class Gateway:
             return {**ev, "job": self.resolve(ev["job"])}
         if op == "deliver":
             return {**ev, "sock": self.resolve(ev["sock"]), "report": {**ev["report"], "job": self.resolve(ev["report"]["job"])}}
+        if op == "rsend":
+            return {**ev, "job": self.resolve(ev["job"])}
+        if op == "rdeliver":
+            # the pick-th message the job's Reporter has put on the wire so far -> an ordinary delivery of what that message says
+            jid = self.resolve(ev["job"])
+            sock = self.sock_of_job.get(jid)
+            msgs = self.wire.get(getattr(sock, "port", None), [])
+            meta = self.sent_meta.get(jid, [])
+            k = ev["pick"]
+            if sock is None or k >= len(msgs) or k >= len(meta):
+                return {"op": "noop", "why": "nothing on the wire"}
+            try:
+                rep = self.report.deserialize(msgs[k])
+                rp = {"job": rep.job_id, "status": rep.current_status, "ts": rep.timestamp,
+                      "results": [[[d.task, d.output], bytes(b).hex()] for d, b in rep.results]}
+                if not (isinstance(rp["job"], str) and isinstance(rp["ts"], int) and (rp["status"] is None or isinstance(rp["status"], str))):
+                    raise TypeError("report fields")
+            except Exception as e:
+                return {"op": "deliver", "sock": jid, "report": None, "_raw": msgs[k], "sent": meta[k], "undecodable": type(e).__name__}
+            return {"op": "deliver", "sock": jid, "report": rp, "_raw": msgs[k], "sent": meta[k]}
         return ev
 
     # ---- one event -> canonical observation (list, JSON-able) ; raises Crash
@@ -314,20 +444,77 @@ class Gateway:
         if op == "stop":
             r = self.fe_request(api.ShutdownRequest())
             return ["stop", errkind(r.error), bool(self.fe_stop)]
+        if op == "noop":
+            return ["noop"]
+        if op == "rsend":
+            return self.reporter_send(ev)
         if op == "deliver":
             sock = self.sock_of_job.get(ev["sock"])
             if sock is None or sock not in self.poller:
                 return ["dropped"]
-            rp = ev["report"]
-            rep = self.report.ControllerReport(rp["job"], rp["status"], rp["ts"],
-                                               [(self.DatasetId(d[0], d[1]), bytes.fromhex(b)) for d, b in rp["results"]])
-            sock.inbox.append(self.report.serialize(rep))
+            if "_raw" in ev:
+                sock.inbox.append(ev["_raw"])
+            else:
+                rp = ev["report"]
+                rep = self.report.ControllerReport(rp["job"], rp["status"], rp["ts"],
+                                                   [(self.DatasetId(d[0], d[1]), bytes.fromhex(b)) for d, b in rp["results"]])
+                sock.inbox.append(self.report.serialize(rep))
             try:
                 self.server.handle_controller(sock, self.router)
             except Exception as e:
                 raise Crash(type(e).__name__, repr(e)[:300])
             return ["handled"]
         raise ValueError(op)
+
+    def reporter_send(self, ev):
+        """one call of a method of the job's REAL Reporter, dt ns after the previous call of any Reporter"""
+        jid = ev["job"]
+        addr = self.addr_of_job.get(jid)
+        sock = self.sock_of_job.get(jid)
+        if addr is None or sock is None:
+            return ["sent", 0, "no-such-job"]
+        self.clock_t += int(ev.get("dt", 0))
+        if jid not in self.reporters:
+            self.clock_on = len(self.reporters)
+            try:
+                self.reporters[jid] = (self.report.Reporter(addr), len(self.reporters))
+            except Exception as e:
+                return ["sent", 0, "Reporter():" + type(e).__name__]
+            finally:
+                self.clock_on = None
+        rep, epoch = self.reporters[jid]
+        before = len(self.wire.get(sock.port, []))
+        what = ev["what"]
+        exc = None
+        self.clock_on = epoch
+        self.clock_reads = []
+        try:
+            if what == "progress":
+                rep.send_progress(types.SimpleNamespace(remaining=ev["rem"], total=ev["total"]))
+            elif what == "result":
+                rep.send_result(self.DatasetId(ev["ds"][0], ev["ds"][1]), bytes.fromhex(ev["bytes"]))
+            elif what == "shutdown":
+                rep.shutdown()
+            else:
+                raise ValueError(what)
+        except Exception as e:
+            exc = type(e).__name__
+        finally:
+            self.clock_on = None
+        n = len(self.wire.get(sock.port, [])) - before
+        for _ in range(n):
+            self.seq += 1
+            self.sent_meta.setdefault(jid, []).append([self.clock_t, self.seq, what, [list(ev["ds"]), ev["bytes"]] if what == "result" else None])
+        # for the correspondence with the Reporter model: the clock reading taken in the call and what the messages say
+        now = self.clock_reads[-1] if self.clock_reads else "none"
+        seen = []
+        for raw in self.wire.get(sock.port, [])[before:]:
+            try:
+                r = self.report.deserialize(raw)
+                seen.append([r.job_id, r.current_status, r.timestamp, [[[d.task, d.output], bytes(b).hex()] for d, b in r.results]])
+            except Exception as e:
+                seen.append(type(e).__name__)
+        return ["sent", n, exc, now, seen]
 
 
 class Crash(Exception):
@@ -383,7 +570,7 @@ def render_of(h):
 def is_wf(events):
     """the histories the property quantifies over: reports of job j arrive on j's own socket, timestamps as monotonic_ns gives them"""
     for ev in events:
-        if ev["op"] == "deliver" and (ev["sock"] != ev["report"]["job"] or ev["report"]["ts"] < 0):
+        if ev["op"] == "deliver" and (ev["report"] is None or ev["sock"] != ev["report"]["job"] or ev["report"]["ts"] < 0):
             return False
     return True
 
@@ -466,6 +653,68 @@ def oracle(events, obs, crash, wf=None):
     return out
 
 
+def oracle_reporter(events, obs, crash):
+    """the same clauses for jobs whose reports come from the REAL Reporter: `newest` = sent last by the harness clock (a tie = sent at the same
+    instant: either), `uploaded` = the bytes handed to send_result.  Jobs that also get hand-built reports, or whose Reporter does not put
+    exactly one message on the wire per call, are left to the other oracle."""
+    out = []
+    rjobs = {e["job"] for e in events if e["op"] == "rsend"} | {e["sock"] for e in events if e["op"] == "deliver" and "sent" in e}
+    if not rjobs:
+        return out
+    skip = set()
+    for e, o in itertools.zip_longest(events, obs):
+        if e["op"] == "deliver" and "sent" not in e:
+            skip.add(e["sock"])
+            if e["report"] is not None:
+                skip.add(e["report"]["job"])
+        if e["op"] == "rsend" and o is not None and (o[1] != 1 or o[2] is not None):
+            skip.add(e["job"])
+    good, prog, ups = set(), {}, {}
+    for i, (ev, ob) in enumerate(zip(events, obs)):
+        op = ev["op"]
+        if op == "submit":
+            if ob[1] is not None and ob[2] is None:
+                good.add(ob[1])
+        elif op == "deliver" and "sent" in ev and ob[0] == "handled":
+            j = ev["sock"]
+            t, seq, what, payload = ev["sent"]
+            if what == "progress":
+                prog.setdefault(j, []).append((t, seq, ev["report"]["status"]))
+            elif what == "result":
+                ups.setdefault((j, tuple(payload[0])), []).append(payload[1])
+        elif op == "progress" and ob[2] is None:
+            for j, v in ob[1]:
+                if j not in rjobs or j in skip or j not in good:
+                    continue
+                reps = prog.get(j, [])
+                if not reps:
+                    exp = {STARTED}
+                else:
+                    m = max(t for t, _, _ in reps)
+                    exp = {s for t, _, s in reps if t == m}
+                if v not in exp:
+                    out.append(("progress-not-newest-sent", f"event {i}: job {j!r} shows {v!r}; progress reports of its Reporter received so far "
+                                f"(clock ns at send_progress, send no., status) {reps}; the newest says {sorted(exp)}"))
+        elif op == "result":
+            j, d = ev["job"], tuple(ev["ds"])
+            if j not in rjobs or j in skip or j not in good:
+                continue
+            _, res, err = ob
+            uploaded = ups.get((j, d), [])
+            if uploaded:
+                if err is not None or res is None:
+                    out.append(("reporter-result-lost", f"event {i}: send_result({j!r},{d}) of {uploaded} was received but the answer is error {err}"))
+                elif res not in uploaded:
+                    out.append(("reporter-result-not-as-uploaded", f"event {i}: result ({j!r},{d}) returned {res!r}, send_result was given {uploaded}"))
+            elif err is None or res is not None:
+                out.append(("reporter-result-for-wrong-key", f"event {i}: no received send_result for ({j!r},{d}) yet the answer is {res!r} (error {err})"))
+    if crash is not None and crash[2] < len(events) and "sent" in events[crash[2]]:
+        e = events[crash[2]]
+        out.append(("gateway-crash-on-reporter-message", f"event {crash[2]}: a message of the real Reporter of job {e['sock']!r} (sent as {e['sent'][2]}) made "
+                    f"handle_controller raise {crash[0]} ({crash[1]}); the gateway stops serving every job"))
+    return out
+
+
 # ----------------------------------------------------------------------------- Coq terms
 class Names:
     def __init__(self):
@@ -497,6 +746,8 @@ def c_event(nm, ev):
     if op == "stop":
         return "Fe ShutdownRequest"
     rp = ev["report"]
+    if op != "deliver" or rp is None:
+        raise ValueError("no model event for " + op)
     rs = clist([f"({c_ds(nm, d)}, {c_bytes(b)})" for d, b in rp["results"]])
     return f"Ctl {nm.n('j:' + ev['sock'])} (mkReport {nm.n('j:' + rp['job'])} {copt(rp['status'], cstr)} {cZ(rp['ts'])} {rs})"
 
@@ -546,6 +797,34 @@ def c_case(events, obs, crash):
     outs = clist([c_output(nm, o) for o in obs])
     return (f"(({tbl},\n    {evs},\n    {outs},\n    {copt(crash[0] if crash else None, cstr)})"
             " : list (N * jobid) * list event * list output * option string)")
+
+
+def c_sends(events, obs):
+    """one term per history with calls of a Reporter: [(job, clock reading, call, reports on the wire)]; None when there is nothing to compare;
+    ValueError when the Reporter took a float reading of the clock or none the model could be given"""
+    nm = Names()
+    items = []
+    for ev, ob in zip(events, obs):
+        if ev["op"] != "rsend" or ob[2] is not None or len(ob) < 5:
+            continue
+        now, seen = ob[3], ob[4]
+        if now is None:
+            raise ValueError("Reporter reads a float clock")
+        if any(not isinstance(x, list) for x in seen):
+            raise ValueError("unreadable Reporter message")
+        if now == "none":                    # no clock read in the call: the model's call is stamped with the monotonic reading
+            now = -1
+        if ev["what"] == "progress":
+            sts = [x[1] for x in seen if isinstance(x[1], str)]
+            call = f"SendProgress {cstr(sts[0] if sts else '?')}"
+        elif ev["what"] == "result":
+            call = f"SendResult {c_ds(nm, ev['ds'])} {c_bytes(ev['bytes'])}"
+        else:
+            call = "SendShutdown"
+        wire = clist([f"(mkReport {nm.n('j:' + str(x[0]))} {copt(x[1], cstr)} {cZ(x[2])} " +
+                      clist([f"({c_ds(nm, d)}, {c_bytes(b)})" for d, b in x[3]]) + ")" for x in seen])
+        items.append(f"({nm.n('j:' + ev['job'])}, {cZ(now)}, {call}, {wire})")
+    return clist(items) if items else None
 
 
 # ----------------------------------------------------------------------------- generators
@@ -884,11 +1163,162 @@ def corpus():
     ]
 
 
+# ----------------------------------------------------------------------------- round 6: the real Reporter is the producer of the reports
+DT_POOL = [0, 1000, 1000, 10**6, 10**6, 10**6, 10**9, 3600 * 10**9]
+NET_MODES = ["immediate", "immediate", "lag", "burst", "reorder", "random", "random"]
+
+
+def reporter_lane(rng, ref, tag, draws):
+    """submit, the calls a controller makes on its Reporter (progress after every step, results as they appear, the shutdown notice), and a
+    network that delivers what is on the wire at once / lagging / in bursts / reordered / duplicated / partly never"""
+    total = rng.choice([1, 2, 3, 4, 7, 8, 10, 64, 1000])
+    nprog = rng.choice([2, 2, 3, 3, 4, 5, 8])
+    rems = sorted((rng.randrange(total + 1) for _ in range(nprog)), reverse=True)
+    if rng.random() < 0.2:
+        rng.shuffle(rems)
+    sends = [{"op": "rsend", "job": ref, "what": "progress", "rem": r, "total": total} for r in rems]
+    for _ in range(rng.choice([0, 0, 1, 1, 2, 3])):
+        sends.insert(rng.randrange(len(sends) + 1), {"op": "rsend", "job": ref, "what": "result",
+                                                     "ds": rng.choice(DS_POOL[:4] if rng.random() < 0.8 else DS_POOL), "bytes": rbytes(rng)})
+    if rng.random() < 0.75:
+        sends.append({"op": "rsend", "job": ref, "what": "shutdown"})
+        if rng.random() < 0.15:
+            sends.append({"op": "rsend", "job": ref, "what": "progress", "rem": 0, "total": total})
+    tie = rng.random() < 0.2
+    for s_ in sends:
+        s_["dt"] = rng.choice(DT_POOL if tie else DT_POOL[1:])
+    mode = rng.choice(NET_MODES)
+    ops = [("s", i) for i in range(len(sends))]
+    order = list(range(len(sends)))
+    for i in order:
+        at = ops.index(("s", i))
+        if mode == "immediate":
+            pos = at + 1
+        elif mode == "lag":
+            nxt = [k for k, o in enumerate(ops) if o[0] == "s" and o[1] > i][:rng.choice([1, 2])]
+            pos = (nxt[-1] + 1) if nxt else len(ops)
+        elif mode == "burst":
+            pos = len(ops)
+        else:
+            pos = rng.randrange(at + 1, len(ops) + 1)
+        if mode == "random" and rng.random() < 0.15:
+            continue                                   # still in flight when the history ends
+        ops.insert(pos, ("d", i))
+    if mode == "reorder":
+        ds_ = [o for o in ops if o[0] == "d"]
+        ops = [o for o in ops if o[0] == "s"]
+        rng.shuffle(ds_)
+        ops += ds_
+    if rng.random() < 0.3:
+        for _ in range(rng.randrange(1, 4)):
+            i = rng.randrange(len(sends))
+            ops.insert(rng.randrange(ops.index(("s", i)) + 1, len(ops) + 1), ("d", i))
+    lane = [{"op": "submit", "tag": tag, "draws": list(draws), "spawn_ok": True}]
+    for k, i in ops:
+        lane.append(sends[i] if k == "s" else {"op": "rdeliver", "job": ref, "pick": i})
+    for _ in range(rng.choice([0, 1, 2, 3])):
+        lane.insert(rng.randrange(1, len(lane) + 1), {"op": "progress", "ids": [ref]})
+    return lane
+
+
+def gen_history_r(rng):
+    njobs = rng.choice([1, 1, 2, 2, 3, 4])
+    refs = [f"@{k}" for k in range(njobs)]
+    fam = rng.choice(UPOOL)
+    hexes = rng.sample(fam, njobs) if rng.random() < 0.5 else [_u4(rng) for _ in range(njobs)]
+    lanes = []
+    for k, ref in enumerate(refs):
+        draws = ([rng.choice(hexes[:k])] if k and rng.random() < 0.2 else []) + [hexes[k]]
+        lanes.append(reporter_lane(rng, ref, k, draws))
+    if njobs > 1 and rng.random() < 0.25:     # one job of the history gets hand-built reports instead
+        k = rng.randrange(njobs)
+        lanes[k] = [lanes[k][0]] + [{"op": "deliver", "sock": refs[k], "report": r} for r in job_script(rng, refs[k])]
+    events = []
+    idx = [0] * njobs
+    live = list(range(njobs))
+    while live:
+        k = rng.choice(live) if rng.random() < 0.8 else live[0]
+        events.append(lanes[k][idx[k]])
+        idx[k] += 1
+        if idx[k] == len(lanes[k]):
+            live.remove(k)
+    seen = []
+    for e in events:
+        if e["op"] == "rsend" and e["what"] == "result" and e["ds"] not in seen:
+            seen.append(e["ds"])
+    for _ in range(rng.choice([0, 1, 2])):
+        r = rng.random()
+        q = ({"op": "progress", "ids": []} if r < 0.4 else
+             {"op": "result", "job": rng.choice(refs), "ds": rng.choice(seen or DS_POOL)} if r < 0.8 else
+             {"op": "progress", "ids": [rng.choice(refs), rng.choice(["nope", f"@{rng.randrange(njobs)}:p12"])]})
+        events.insert(rng.randrange(1, len(events) + 1), q)
+    events.append({"op": "progress", "ids": []})
+    for ref in refs:
+        events.append({"op": "progress", "ids": [ref]})
+        for d in (seen + [["never", "sent"]])[:4]:
+            events.append({"op": "result", "job": ref, "ds": d})
+    return events
+
+
+def small_scope_r(maxlen):
+    """one job (and a bystander), its Reporter called send_progress x3, send_result, shutdown with every pattern of zero / non-zero clock steps
+    between the progress calls, then EVERY sequence of at most maxlen deliveries of the five messages, the shown progress read after each"""
+    d = ["t", "0"]
+    q = {"op": "progress", "ids": ["@0"]}
+    for dts in itertools.product([0, 1000], repeat=2):
+        head = [{"op": "submit", "tag": 0, "draws": [UPOOL[6][0]], "spawn_ok": True}, {"op": "submit", "tag": 1, "draws": [UPOOL[6][2]], "spawn_ok": True},
+                {"op": "rsend", "job": "@0", "what": "progress", "rem": 3, "total": 4, "dt": 1000},
+                {"op": "rsend", "job": "@1", "what": "progress", "rem": 1, "total": 3, "dt": 1000},
+                {"op": "rsend", "job": "@0", "what": "progress", "rem": 2, "total": 4, "dt": dts[0]},
+                {"op": "rsend", "job": "@0", "what": "result", "ds": d, "bytes": "c0ffee", "dt": 1000},
+                {"op": "rsend", "job": "@0", "what": "progress", "rem": 0, "total": 4, "dt": dts[1]},
+                {"op": "rsend", "job": "@0", "what": "shutdown", "dt": 1000}]
+        tail = [{"op": "progress", "ids": []}, {"op": "result", "job": "@0", "ds": d}, {"op": "result", "job": "@1", "ds": d}]
+        for n in range(maxlen + 1):
+            for picks in itertools.product(range(5), repeat=n):
+                mid = []
+                for k in picks:
+                    mid += [{"op": "rdeliver", "job": "@0", "pick": k}, q]
+                yield head + mid + [{"op": "rdeliver", "job": "@1", "pick": 0}] + tail
+
+
+def corpus_r():
+    sub = lambda tag, h: {"op": "submit", "tag": tag, "draws": [h], "spawn_ok": True}
+    A, B = UPOOL[7][0], UPOOL[7][1]
+    d = ["sink", "o"]
+
+    def steps(ref, total, dt, upto=None):
+        out = []
+        for rem in range(total - 1, -1, -1):
+            out += [{"op": "rsend", "job": ref, "what": "progress", "rem": rem, "total": total, "dt": dt}, {"op": "rdeliver", "job": ref, "pick": total - 1 - rem},
+                    {"op": "progress", "ids": [ref]}]
+        return out
+    fin = lambda ref, n: [{"op": "rsend", "job": ref, "what": "result", "ds": d, "bytes": "0a0b", "dt": 5}, {"op": "rdeliver", "job": ref, "pick": n},
+                          {"op": "rsend", "job": ref, "what": "shutdown", "dt": 5}, {"op": "rdeliver", "job": ref, "pick": n + 1},
+                          {"op": "progress", "ids": [ref]}, {"op": "result", "job": ref, "ds": d}]
+    two = [sub(0, A), sub(1, B)] + [x for pair in zip(steps("@0", 3, 10**6), steps("@1", 3, 10**3)) for x in pair] + fin("@0", 3) + fin("@1", 3)
+    return [
+        # a controller as it runs: progress after every step, delivered at once, result, shutdown
+        [sub(0, A)] + steps("@0", 8, 2 * 10**6) + fin("@0", 8) + [{"op": "progress", "ids": []}],
+        # two controllers, their calls alternating, clocks with unrelated epochs
+        two + [{"op": "progress", "ids": []}, {"op": "result", "job": "@1", "ds": ["sink", "other"]}],
+        # all reports sit on the wire and arrive newest first
+        [sub(0, A)] + [{"op": "rsend", "job": "@0", "what": "progress", "rem": r, "total": 4, "dt": 1000} for r in (3, 2, 1, 0)] +
+        [x for k in (3, 2, 1, 0) for x in ({"op": "rdeliver", "job": "@0", "pick": k}, {"op": "progress", "ids": ["@0"]})],
+    ]
+
+
 # ----------------------------------------------------------------------------- run / search / replay / shrink
 def evaluate(events):
     """-> observations, crash, oracle verdicts, events with resolved job references (what the oracle and the model are given)"""
     obs, crash, revents = run_history(events)
-    return obs, crash, oracle(revents, obs, crash), revents
+    return obs, crash, oracle(revents, obs, crash) + oracle_reporter(revents, obs, crash), revents
+
+
+def model_view(revents, obs):
+    """the history as the gateway (and the model) sees it: calls of the Reporter are not events of the gateway"""
+    hidden = ("rsend", "noop")
+    return [e for e in revents if e["op"] not in hidden], [o for e, o in zip(revents, obs) if e["op"] not in hidden]
 
 
 def hist_key(events):
@@ -909,7 +1339,7 @@ def classify(events, obs, res):
     late = dup = aftershut = False
     seen = set()
     for e, o in zip(events, obs):
-        if e["op"] != "deliver":
+        if e["op"] != "deliver" or e["report"] is None:
             continue
         rp = e["report"]
         key = json.dumps(rp, sort_keys=True)
@@ -940,6 +1370,21 @@ def classify(events, obs, res):
         res.count("has-look-alike-job-ids")
     if len(ids) >= 8:
         res.count("jobs>=8")
+    rs = [(e, o) for e, o in zip(events, obs) if e["op"] == "deliver" and "sent" in e]
+    if rs:
+        res.count("has-real-Reporter-messages")
+        got = {}
+        for e, o in rs:
+            if o[0] == "handled":
+                got.setdefault(e["sock"], []).append(e["sent"])
+        if any(len([m for m in ms if m[2] == "progress"]) >= 2 for ms in got.values()):
+            res.count("reporter:>=2-progress-reports-of-a-job-received")
+        if any(a[1] > b[1] for ms in got.values() for a, b in zip(ms, ms[1:])):
+            res.count("reporter:received-out-of-send-order")
+        if any(a[0] == b[0] and a[1] != b[1] and a[2] == b[2] == "progress" for ms in got.values() for a in ms for b in ms):
+            res.count("reporter:two-progress-reports-sent-at-the-same-instant")
+        if any(o[0] == "dropped" for e, o in rs):
+            res.count("reporter:message-after-shutdown-notice(dropped)")
 
 
 def run(ctx, res):
@@ -971,7 +1416,16 @@ def run(ctx, res):
         streams.append(("many-jobs-uuid", gen_history_u(rng5, many=True)))
     for h in small_scope_u():
         streams.append(("small-scope-uuid", h))
+    # round 6: the real Reporter produces the reports
+    for h in corpus_r():
+        streams.append(("corpus-reporter", h))
+    rng6 = ctx.sub_rng("reporter")
+    for _ in range(ctx.n(350, 6000)):
+        streams.append(("random-reporter", gen_history_r(rng6)))
+    for h in small_scope_r(ctx.n(3, 4)):
+        streams.append(("small-scope-reporter", h))
     terms, metas = [], []
+    sterms = {}
     for kind, events in streams:
         obs, crash, bad, revents = evaluate(events)
         res.evaluations += 1
@@ -991,10 +1445,28 @@ def run(ctx, res):
         if len(res.samples) < 5 and kind == "random-uuid" and nontrivial(revents, obs) and any(o[0] == "submit" and o[4] >= 2 for o in obs):
             res.samples.append({"events": events[:12], "observations": obs[:12]})
         try:
-            terms.append(c_case(revents, obs, crash))
+            terms.append(c_case(*model_view(revents, obs), crash))
             metas.append((case, obs, crash))
         except ValueError as e:  # a string the literal printer refuses / ids that are no rendering of one draw: counted, not compared
             res.count("not-compared:" + str(e)[:60])
+        if "reporter" in kind:
+            try:
+                t = c_sends(revents, obs)
+                if t is not None:
+                    sterms.setdefault(t, ({"events": events, "stream": kind}, obs))
+            except (ValueError, TypeError) as e:
+                res.count("reporter-not-compared:" + str(e)[:60])
+    if sterms:
+        sres, slogs = coq_results("C18", HEADER.replace("Gateway.RouterCheck.", "Gateway.RouterCheck Gateway.Reporter Gateway.ReporterCheck."),
+                                  list(sterms), "check_sends", tag="sends", shard=400, case_type="list (jobid * Z * call * list report)")
+        res.corr_checked += len(sres)
+        for r, (case, obs) in zip(sres, sterms.values()):
+            if r is not True:
+                res.disagree("Coq model of the Reporter (Gateway.Reporter.reporter: one report per call, stamped with the job and the clock reading "
+                             "taken in the call) and the real Reporter differ" +
+                             ("" if r is False else " (cases file did not compile: " + (slogs[0][-400:] if slogs else "") + ")"),
+                             {**case, "observations": obs})
+                break
     results, logs = coq_results("C18", HEADER, terms, "check_case_r", tag="hist", shard=300)
     res.corr_checked += len(results)
     for r, (case, obs, crash) in zip(results, metas):
@@ -1012,7 +1484,7 @@ def search(ctx, res):
         ev = (d.get("case") or {}).get("events")
         if ev:
             first.append(ev)
-    cands = itertools.chain(first, corpus(), corpus_u(),
+    cands = itertools.chain(first, corpus(), corpus_u(), corpus_r(),
                             (gen_history(ctx.sub_rng(f"search{k}")) for k in range(1)),
                             small_scope_u(), _many(ctx), small_scope(4))
     for events in cands:
